@@ -74,7 +74,7 @@ def run(ctx):
     ref = "Known" if known else "Ideal"
     aedges = S.agent_edges(agent["agent" + ref].edges)
     adoc, ap, an, ae, asteps = R.compact_paths(aedges, S.is_init)
-    window = 1000 if ctx.quick() else 1500
+    window = 2000 if ctx.quick() else 2500
     asumm, amism = S.agent_replay(ctx, adoc, "ref", window)
     if asumm["steps"] < asteps and not amism:
         raise vf.Infra("agent replay executed %d of %d steps without reporting a mismatch" % (asumm["steps"], asteps))
